@@ -65,6 +65,11 @@ namespace awkward {
   PartitionedArrayPtr
   IrregularlyPartitionedArray::repartition(
     const std::vector<int64_t>& stops) const {
+    if (stops.empty()) {
+      throw std::invalid_argument(
+        std::string("cannot repartition into zero partitions")
+        + FILENAME(__LINE__));
+    }
     if (stops == stops_) {
       return shallow_copy();
     }
